@@ -11,14 +11,14 @@ import (
 // FCFG is the control flow graph of one function body (declaration or
 // literal; nested literals are separate graphs) with dominator information.
 type FCFG struct {
-	G     *cfg.CFG
-	Fn    ast.Node
-	where map[ast.Node]nodePos // every sub node of a block node -> position
-	idom  []int                // immediate dominator by block index, -1 = none/unreachable
-	info  *types.Info
+	G        *cfg.CFG
+	Fn       ast.Node
+	where    map[ast.Node]nodePos // every sub node of a block node -> position
+	idom     []int                // immediate dominator by block index, -1 = none/unreachable
+	info     *types.Info
 	switchOf map[*ast.CaseClause]*ast.SwitchStmt
-	preds [][]int
-	live  []bool
+	preds    [][]int
+	live     []bool
 }
 
 type nodePos struct {
@@ -236,6 +236,8 @@ func (f *FCFG) Dominates(a, b ast.Node) bool {
 type Guard struct {
 	Cond ast.Expr
 	Val  bool
+	// Synth: the fact is the positive form of a false (in)equality, Cond is not a node of the source
+	Synth bool
 }
 
 // condOf reports whether the block ends in a two way branch on a boolean
@@ -329,6 +331,15 @@ func expandGuard(cond ast.Expr, val bool, out *[]Guard) {
 		}
 	}
 	*out = append(*out, Guard{Cond: cond, Val: val})
+	// a false (in)equality is also reported in its positive form, so that rules need not know
+	// which way round a condition was written: !(a != b) => a == b, !(a == b) => a != b
+	if be, ok := cond.(*ast.BinaryExpr); ok && !val && (be.Op == token.EQL || be.Op == token.NEQ) {
+		op := token.EQL
+		if be.Op == token.EQL {
+			op = token.NEQ
+		}
+		*out = append(*out, Guard{Cond: &ast.BinaryExpr{X: be.X, OpPos: be.OpPos, Op: op, Y: be.Y}, Val: true, Synth: true})
+	}
 }
 
 // PathAvoiding reports whether there is a path that starts right after the
@@ -478,4 +489,53 @@ func (f *FCFG) RangeBlocks(rs *ast.RangeStmt) (body, loop, done *cfg.Block) {
 		}
 	}
 	return
+}
+
+// PathAvoidingEdges is PathAvoiding from the function entry with an edge
+// filter: at a two way branch on a boolean condition, the edge for the value
+// val is followed only if edgeOK(cond, val) holds. It is used to look for
+// paths under an assumption ("c is not nil").
+func (f *FCFG) PathAvoidingEdges(target, barrier func(ast.Node) bool, edgeOK func(cond ast.Expr, val bool) bool) (bool, []ast.Node) {
+	if len(f.G.Blocks) == 0 {
+		return false, nil
+	}
+	visited := map[int32]bool{}
+	var trail []ast.Node
+	var walk func(b *cfg.Block) bool
+	walk = func(b *cfg.Block) bool {
+		mark := len(trail)
+		for _, n := range b.Nodes {
+			if target != nil && target(n) {
+				trail = append(trail, n)
+				return true
+			}
+			if barrier != nil && barrier(n) {
+				trail = trail[:mark]
+				return false
+			}
+		}
+		if len(b.Nodes) > 0 {
+			trail = append(trail, b.Nodes[len(b.Nodes)-1])
+		}
+		cond := f.condOf(b)
+		for i, s := range b.Succs {
+			if cond != nil && edgeOK != nil && !edgeOK(cond, i == 0) {
+				continue
+			}
+			if visited[s.Index] {
+				continue
+			}
+			visited[s.Index] = true
+			if walk(s) {
+				return true
+			}
+		}
+		trail = trail[:mark]
+		return false
+	}
+	visited[f.G.Blocks[0].Index] = true
+	if walk(f.G.Blocks[0]) {
+		return true, trail
+	}
+	return false, nil
 }
